@@ -1249,11 +1249,14 @@ func newestAcrossSourcesGroup(c *Ctx, rule string) {
 		c.Decide(set, rule, key(fn, "Version=ParseTs(found-key)"), fn.Pos(), 1, "the index reports the version of the entry it found", spec[1]+" does not report the found entry's version (ValueStruct.Version is not serialized): the caller cannot compare hits from different memtables and levels and has to trust the first one")
 	}
 	isVersionLoad := func(v ssa.Value) bool { return isFieldLoad(v, "kv.Entry", "Version") }
+	srcGet := map[string]Matcher{"LSM.Get": Named("lsm.(*memTable).Get"), "levelManager.Get": Named("lsm.(*levelHandler).Get")}
 	for _, spec := range [][2]string{{"lsm", "LSM.Get"}, {"lsm", "levelManager.Get"}} {
 		fn := c.Fn(spec[0], spec[1])
 		if fn == nil {
 			continue
 		}
+		// the fold may live in a same-package helper that owns the loop over the sources
+		fn = loopOwner(c, fn, srcGet[spec[1]])
 		// exact-match edges
 		var eq [][2]*ssa.BasicBlock
 		strictFold := false
@@ -1736,4 +1739,44 @@ func segmentIDAllocatorGroup(c *Ctx, rule string) {
 		})
 	}
 	c.Decide(!(selfAlloc && autoRotate) || sized, rule, key(ec, "single-segment-id-allocator"), ec.Pos(), 3, "the WAL does not allocate ids the LSM will reuse", "wal.Manager rotates on its own to activeID+1 when a segment exceeds its size (64 MiB, never configured by DB.Open) while lsm.NewMemtable allocates the next id from levels.maxFID and opens it with truncate=true: with MemTableSize above the segment size (or raft records sharing the WAL) the memtable's later records land in a segment that the next memtable truncates")
+}
+
+// loopOwner: fn if it calls m inside a loop, otherwise the same-package static callee of fn
+// (depth 2) that does; fn itself when none is found.
+func loopOwner(c *Ctx, fn *ssa.Function, m Matcher) *ssa.Function {
+	has := func(f *ssa.Function) bool {
+		for _, ci := range Calls(f, false, m) {
+			if blockInLoop(ci.Block()) {
+				return true
+			}
+		}
+		return false
+	}
+	if has(fn) {
+		return fn
+	}
+	var found *ssa.Function
+	var walk func(f *ssa.Function, d int)
+	walk = func(f *ssa.Function, d int) {
+		if d <= 0 || found != nil {
+			return
+		}
+		for _, ci := range Calls(f, false, func(cc *ssa.CallCommon) bool { return true }) {
+			sf := StaticFn(ci.Common())
+			if sf == nil || sf.Blocks == nil || FuncPkgPath(sf) != FuncPkgPath(fn) || sf == f {
+				continue
+			}
+			if has(sf) {
+				found = sf
+				c.Touch(sf)
+				return
+			}
+			walk(sf, d-1)
+		}
+	}
+	walk(fn, 2)
+	if found != nil {
+		return found
+	}
+	return fn
 }
